@@ -754,6 +754,10 @@ def run_nonpkg(d, acc):
             arg = ""  # a path that names no file (only None stands for the default template)
         elif form == "stream":
             arg = io.BytesIO(payload)
+        elif form == "fileobj":
+            with open(os.path.join(tmp, "in.pptx"), "wb") as fh:
+                fh.write(payload)
+            arg = fobj = open(os.path.join(tmp, "in.pptx"), "rb")
         elif form == "path":
             arg = os.path.join(tmp, "in.pptx")
             with open(arg, "wb") as fh:
@@ -767,6 +771,8 @@ def run_nonpkg(d, acc):
             got = "accept"
         except Exception as e:  # noqa
             got, exc = type(e), e
+        if form == "fileobj":
+            fobj.close()
     name = "%s-%s" % (cls, form)
     acc.count("nonpackage_opens")
     gname = got if got == "accept" else got.__name__
@@ -806,6 +812,7 @@ def nonpkg_deck_cases(rel, rnd, everything):
     for cls, cs in cuts.items():
         cs = sorted(set(cs)) if everything or cls == "trunc-random" else [rnd.choice(cs)]
         out += [{"nonpkg": cls, "deck": rel, "cut": c, "form": f} for c in cs for f in ("stream", "path")]
+        out += [{"nonpkg": cls, "deck": rel, "cut": cs[0], "form": "fileobj"}]
     for cls in list(STRUCT):
         out += [{"nonpkg": cls, "deck": rel, "form": f} for f in (("stream", "path", "dir") if everything else (rnd.choice(["stream", "path"]), "dir"))]
     big = [i for i in infos if i.compress_size > 40]
@@ -818,7 +825,7 @@ def nonpkg_deck_cases(rel, rnd, everything):
 
 def synthetic_cases(rnd):
     out = []
-    for f in ("stream", "path"):
+    for f in ("stream", "path", "fileobj"):  # fileobj: a real open file (open(path, "rb")) - a stream, though it has a .name
         out += [{"nonpkg": c, "form": f} for c in ("empty", "text", "zip-not-opc", "zip-empty")]
         out += [{"nonpkg": "text", "form": f, "size": 3000}]
         out += [{"nonpkg": "random", "form": f, "size": s, "seed": rnd.randrange(1 << 30)} for s in (1, 21, 22, 100, 5000, 70000)]
